@@ -462,6 +462,7 @@ func parseCaseLine(line string) (*Case, error) {
 // ---------- workers ----------
 
 type outcomeRec struct {
+	skipped bool
 	ms      int
 	cs      *Case
 	res     *Result
@@ -588,9 +589,13 @@ func (p *proc) runOne(cs *Case) (o outcomeRec, alive bool) {
 	}
 }
 
+// runAll runs the cases on nworkers child processes. Fail fast: once 40 cases have left a child dirty
+// (leak, hang, unexplained death) the tree is broken in a systematic way; the remaining cases are not
+// started (they come back with skipped=true) so that the report is not delayed by minutes of waiting.
 func runAll(cases []*Case, nworkers int) []outcomeRec {
 	out := make([]outcomeRec, len(cases))
 	var next int
+	dirty := 0
 	var mu sync.Mutex
 	var wg sync.WaitGroup
 	for w := 0; w < nworkers; w++ {
@@ -608,9 +613,14 @@ func runAll(cases []*Case, nworkers int) []outcomeRec {
 				mu.Lock()
 				i := next
 				next++
+				stop := dirty >= 40
 				mu.Unlock()
 				if i >= len(cases) {
 					return
+				}
+				if stop {
+					out[i] = outcomeRec{cs: cases[i], skipped: true}
+					continue
 				}
 				if p == nil {
 					var err error
@@ -626,6 +636,11 @@ func runAll(cases []*Case, nworkers int) []outcomeRec {
 				out[i] = o
 				if !alive {
 					p = nil
+					if o.res != nil || o.hung || !(strings.Contains(o.panicTx, "panic:") || strings.Contains(o.panicTx, "fatal error:")) {
+						mu.Lock()
+						dirty++
+						mu.Unlock()
+					}
 				}
 			}
 		}()
@@ -799,6 +814,11 @@ func main() {
 		if len(again) == 0 {
 			break
 		}
+		if len(again) > 80 {
+			// noise does not hit that many cases: something is systematically wrong, re-running all of
+			// them would only delay the report
+			idx, again = idx[:80], again[:80]
+		}
 		retried += len(again)
 		rr := runAll(again, 3)
 		for j, i := range idx {
@@ -962,6 +982,10 @@ func serverCausedTimeout(recs []reqRecord) bool {
 func evaluate(o *outcomeRec) (e evalRes) {
 	cs := o.cs
 	e.input = caseLine(cs, nil)
+	if o.skipped {
+		e.kinds = append(e.kinds, "not-run-after-fail-fast")
+		return e
+	}
 	if o.res == nil {
 		switch {
 		case o.hung:
